@@ -1,4 +1,5 @@
 import McpModel.Conn.DispInv
+import McpModel.Conn.Usable
 /-!
 # Property theorems for E1 — the jsonrpc2 connection (C01–C05)
 
@@ -393,5 +394,88 @@ theorem single_dispatcher (ls : List Label) (s : St) (h : run {} ls = some s) :
   refine ⟨iv.hr, iv.dsp, ?_⟩
   intro r m hm hs hr
   exact iv.unrel r m.mcore (by simp [dview, hm]) hs hr
+
+end Conn
+
+namespace Conn
+
+/-! ## C04 — cancellation -/
+
+theorem settle_metas' (X : St) : (settle X).metas = X.metas := settle_metas X
+
+/-- **cancel_hits_only_matching.** `Cancel(id)` cancels the context of exactly the request currently
+indexed under `id` (if any) and of no other request; it changes no bookkeeping. -/
+theorem cancel_hits_only_matching (s s' : St) (id : Nat) (h : step s (.k1 id) = some s') :
+    s'.cores = s.cores ∧ s'.byID = s.byID ∧
+    ∀ (r : Nat), s'.metas[r]? ≠ s.metas[r]? → s.byID.lookup id = some r := by
+  simp only [step, Option.map_eq_some_iff] at h
+  obtain ⟨s0, h0, rfl⟩ := h
+  simp only [step0] at h0
+  split at h0
+  · cases h0
+  · have e2 : ∀ X : St, (settle X).cores = X.cores := fun X => congrArg ReqView.cores (reqView_settle X)
+    have e3 : ∀ X : St, (settle X).byID = X.byID := fun X => congrArg ReqView.byID (reqView_settle X)
+    split at h0 <;> cases h0
+    · rename_i r hl
+      have hl' : s.byID.lookup id = some r := by simpa using hl
+      refine ⟨by rw [e2]; simp, by rw [e3]; simp, ?_⟩
+      intro j hj
+      rw [settle_metas] at hj
+      by_cases hjr : j = r
+      · subst hjr; exact hl'
+      · exfalso; apply hj
+        simp [cancelReq, modMeta, List.getElem?_modify, Ne.symm hjr]
+    · refine ⟨by rw [e2]; simp, by rw [e3]; simp, ?_⟩
+      intro j hj; exfalso; apply hj; rw [settle_metas]; simp
+
+/-- **late_response_discarded.** A response whose id is not (or no longer) registered — a late answer to
+an abandoned call, a duplicate, an id never issued — changes nothing but the ghost log. -/
+theorem late_response_discarded (s s' : St) (id p : Nat) (hrd : s.reader = .rr id p) (hno : id ∉ s.outCalls)
+    (h : step0 s .rresp = some s') : s'.calls = s.calls ∧ s'.outCalls = s.outCalls ∧ s'.cores = s.cores := by
+  simp only [step0, hrd] at h
+  have hc : s.outCalls.contains id = false := by simpa using hno
+  simp only [hc] at h
+  cases h
+  exact ⟨by simp, by simp, by simp⟩
+
+end Conn
+
+namespace Conn
+
+/-- **cancel_returns_without_peer.** A caller whose context has ended is parked before its own eager
+`Retire` (never blocked in `Await`, see `await_wait_free`); that step is enabled whatever the peer and
+the transport do — it waits for nobody. It completes the call with the context's error
+(`completed_has_outcome`); the cancellation notice is a separate goroutine (`cnotifs`) that the caller
+never waits for. -/
+theorem cancel_returns_without_peer (s : St) (n : Nat) (c : Call) (hc : getCall s n = some c) (hpc : c.pc = .rc) :
+    ∃ s', step s (.retire n) = some s' := by
+  simp only [step, step0, hc, hpc]
+  exact ⟨_, rfl⟩
+
+/-- **notify_allowed_while_draining.** During shutdown an outgoing notification is admitted exactly while
+some call is still in flight in either direction (so cancellations can still be delivered); otherwise
+it is refused with the closing error. -/
+theorem notify_allowed_while_draining (s s' : St) (w : Who) (nf : Notif) (hnf : getNotif s w = some nf) (hpc : nf.pc = .n1)
+    (h : step0 s (.n1 w) = some s') :
+    (s'.outNotifs = s.outNotifs + 1 ↔ ¬ (s.outCalls.isEmpty = true ∧ s.byID.isEmpty = true ∧ s.shuttingDown = true)) := by
+  have t1 : ∀ X : St, (tail X).outNotifs = X.outNotifs := fun X => by
+    unfold tail finish closeTransport; repeat' split
+    all_goals rfl
+  have t2 : ∀ (X : St) (f : Notif → Notif), (setNotif X w f).outNotifs = X.outNotifs := fun X f => congrArg FV.outNotifs (fview_setNotif X w f)
+  simp only [step0, hnf] at h
+  split at h
+  · rename_i hne; exact absurd hpc hne
+  · split at h
+    · rename_i hc
+      cases h
+      simp only [Bool.and_eq_true] at hc
+      rw [t1, t2]
+      simp [hc.1.1, hc.1.2, hc.2]
+    · rename_i hc
+      cases h
+      simp only [Bool.and_eq_true, not_and] at hc
+      rw [t1, t2]
+      simp only [true_iff]
+      intro ⟨a, b, c⟩; exact hc ⟨a, b⟩ c
 
 end Conn
